@@ -66,7 +66,10 @@ void h_run(Case &c) {
   Draw &d = c.head;
   static const char *syn[] = {"pack:2 core:4 pu:2", "pu:8", "numa:2 pack:2 core:2 pu:2", "pack:3 [numa] core:2 pu:1", "core:16 pu:1"};
   const char *s = d.pick(syn); c.descf("synthetic=\"%s\"", s);
-  hwloc_topology_t t; hwloc_topology_init(&t); hwloc_topology_set_synthetic(t, s); CHECK(c, hwloc_topology_load(t) == 0, "setup", "load failed");
+  hwloc_topology_t t; hwloc_topology_init(&t); hwloc_topology_set_synthetic(t, s);
+  // NO_CPUKINDS only ignores the kinds reported by the OS/XML: registered kinds must behave the same (F-C13-c)
+  { unsigned long tf = 0; if (d.chance(1, 3)) { if (d.chance(2, 3)) tf |= HWLOC_TOPOLOGY_FLAG_NO_CPUKINDS; if (d.chance(1, 3)) tf |= HWLOC_TOPOLOGY_FLAG_NO_MEMATTRS; if (d.chance(1, 3)) tf |= HWLOC_TOPOLOGY_FLAG_NO_DISTANCES; } if (tf) { hwloc_topology_set_flags(t, tf); c.descf(" flags=0x%lx", tf); c.cls("topology-flags:NO_*"); } }
+  CHECK(c, hwloc_topology_load(t) == 0, "setup", "load failed");
   int npu = hwloc_get_nbobjs_by_type(t, HWLOC_OBJ_PU);
   std::vector<Reg> regs; int splits = 0, merges = 0;
   for (size_t op = 0; op < c.ops.size(); op++) {
